@@ -315,21 +315,40 @@ func (m *Machine) store(p Ptr, v Value) {
 func (m *Machine) selectSym(p Ptr) Value {
 	s := m.S
 	arr := (*m.cell(Ptr{Obj: p.Obj, Path: p.Path})).(*ArrayV)
-	groups := map[*Term]*Term{} // element term → condition "index selects it"
+	// group the indices by element value; the most frequent value becomes the default (else) branch
+	count := map[*Term]int{}
 	var order []*Term
-	for i, e := range arr.E {
+	for _, e := range arr.E {
 		t := e.(*Term)
-		c := s.Eq(p.Sym, s.Const(p.Sym.W, uint64(i)))
-		if old, ok := groups[t]; ok {
-			groups[t] = s.BOr(old, c)
-		} else {
-			groups[t] = c
+		if count[t] == 0 {
 			order = append(order, t)
 		}
+		count[t]++
 	}
-	res := order[len(order)-1]
-	for i := len(order) - 2; i >= 0; i-- {
-		res = s.Ite(groups[order[i]], order[i], res)
+	def := order[0]
+	for _, t := range order {
+		if count[t] > count[def] {
+			def = t
+		}
+	}
+	conds := map[*Term]*Term{}
+	for i, e := range arr.E {
+		t := e.(*Term)
+		if t == def {
+			continue
+		}
+		c := s.Eq(p.Sym, s.Const(p.Sym.W, uint64(i)))
+		if old, ok := conds[t]; ok {
+			conds[t] = s.BOr(old, c)
+		} else {
+			conds[t] = c
+		}
+	}
+	res := def
+	for i := len(order) - 1; i >= 0; i-- {
+		if order[i] != def {
+			res = s.Ite(conds[order[i]], order[i], res)
+		}
 	}
 	return res
 }
